@@ -555,6 +555,10 @@ def gen_C09(rng, tier):
                     p.insert(0, ['rss', 9000])
                 return p
             add_applies(rng, c, ops, rng.randint(1, 3), mk=mk)
+            if rng.random() < 0.15 and ops[-1][0] == 'apply':
+                # a job nobody waits for any more still counts against its worker's quota, and its result is
+                # still "consumed" for the worker's exit
+                ops.append(['discard', ops[-1][1]])
         elif r < 0.7:
             add_map(rng, c, ops, n=rng.choice([2, 5, 9, 14]))
         elif r < 0.8:
@@ -583,9 +587,22 @@ def gen_C09(rng, tier):
             else:
                 f[mode] = rng.randint(1, 30)
             case['stalls'].append(f)
+    if pc.get('maxtasksperchild') and not any(o[0] == 'apply' and has_die(o[2]) for o in ops) and \
+            not any(o[0] == 'grow' for o in ops) and rng.random() < 0.4:
+        # (no grow() here: workers added by grow() are charged to the budget like restarts, and a refusal makes
+        # the supervisor close the pool - the limiter is C11's subject)
+        # a restart budget: workers that leave on schedule (quota, memory limit) never use it up
+        pc['max_restarts'] = rng.randint(1, 2)
+        pc['max_restart_freq'] = rng.choice([1.0, 3.0])
+        ops.insert(0, ['sleep', 2.5])          # past the start-up phase, which has a budget of its own
     ops.append(['sleep', 2.0])
     ops.append(['check_size'])
     return case
+
+
+def has_die(prog):
+    return any(ins[0] in ('die', 'os_exit', 'sys_exit') or
+               (ins[0] == 'try' and (has_die(ins[1]) or has_die(ins[2]))) for ins in prog)
 
 
 def gen_C10(rng, tier):
@@ -614,9 +631,15 @@ def gen_C10(rng, tier):
                 # (grow()/shrink() are issued by one thread, as a sequence: two concurrent shrink() calls can pick
                 # the same worker and signal it twice, which is outside what the properties quantify over)
                 add_applies(rng, c, ops, 1)
-            elif r < 0.95:
+            elif r < 0.93:
                 ops.append(['grow', 1])
+            elif r < 0.97:
+                ops.append(['shrink', 1])
             else:
+                # every worker busy with parts of a map (which take no slot): shrink() is refused
+                add_map(rng, c, ops, kind='map', n=pc['processes'] + rng.randint(0, 2), chunks=1,
+                        mkitem=lambda: prog_ok(rng, maxticks=1, sleep=rng.choice([0.6, 1.5])))
+                ops.append(['sleep', 0.2])
                 ops.append(['shrink', 1])
         if ui:
             case['users'].append(ops)
@@ -645,6 +668,9 @@ def gen_C11(rng, tier):
             add_applies(rng, c, ops, 1, mk=lambda: [['os_exit', rng.choice([0, EX_RECYCLE])]])
         else:
             add_applies(rng, c, ops, 1, mk=lambda: prog_ok(rng, sleep=0.05))
+            if rng.random() < 0.3:
+                # nobody wants the result any more: its acceptance still restores the budget
+                ops.append(['discard', ops[-1][1]] if ops[-1][0] == 'apply' else ['sleep', 0])
         ops.append(['sleep', rng.choice([0.0, 0.1, 0.3, 0.9, 1.7, 3.5])])
     case['epilogue'] = 'terminate'
     return case
